@@ -17,7 +17,7 @@ pub fn property() -> Property {
     Property {
         id: "C12",
         level: "exploration",
-        rule: "(valid) reference positions (all 16 right sets, e.p. squares, clocks up to u32::MAX) written by the harness's own FEN writer in 6- and 4-field form: accepted, decoded square by square / side / rights / e.p. / clocks (defaults 0 and 1), written back as the canonical text, re-read identically; (invalid) one grammar fault per case from 11 classes: Fen::from_str is Err and Fen::is_valid false; (total) arbitrary Unicode strings and byte-level mutations of valid FENs never panic in Fen::from_str, Fen::is_valid, Bitboard::from_fen_string. Non-trivial = distinct FEN text with rights / e.p. / large clocks (valid), distinct faulty text (invalid), distinct mutated text that is not valid (total)",
+        rule: "(valid) reference positions (all 16 right sets, e.p. squares, clocks up to u32::MAX) written by the harness's own FEN writer in 6- and 4-field form: accepted, decoded square by square / side / rights / e.p. / clocks (defaults 0 and 1), written back as the canonical text, re-read identically; (invalid) one grammar fault per case from 14 classes (incl. Unicode look-alikes of FEN characters): Fen::from_str is Err and Fen::is_valid false; (total) arbitrary Unicode strings and byte-level mutations of valid FENs never panic in Fen::from_str, Fen::is_valid, Bitboard::from_fen_string. Non-trivial = distinct FEN text with rights / e.p. / large clocks (valid), distinct faulty text (invalid), distinct mutated text that is not valid (total)",
         assumptions: &["mutations that stay inside the grammar the code documents (e.p. on any rank, the literal 'startpos', surrounding white space) are not asserted to fail"],
         parts: vec![
             Part {
@@ -152,7 +152,7 @@ fn compare_board(b: &Bitboard, p: &Pos, text: &str) -> Result<(), String> {
 
 // ------------------------------------------------------------------------------------------------
 
-pub const N_FAULTS: u32 = 13;
+pub const N_FAULTS: u32 = 15;
 
 #[derive(Debug, Clone, Serialize, Deserialize)]
 pub struct InvalidCase {
@@ -160,11 +160,32 @@ pub struct InvalidCase {
     pub text: String,
 }
 
+/// characters that look like / case-fold to a FEN character without being one
+pub fn lookalikes(c: char) -> Vec<char> {
+    match c {
+        'k' | 'K' => vec!['\u{212A}', '\u{039A}', '\u{041A}', '\u{03BA}', '\u{043A}', '\u{FF4B}', '\u{FF2B}'],
+        'p' | 'P' => vec!['\u{0440}', '\u{0420}', '\u{03A1}', '\u{03C1}', '\u{FF50}'],
+        'b' | 'B' => vec!['\u{0392}', '\u{0412}', '\u{FF42}', '\u{044C}'],
+        'n' | 'N' => vec!['\u{039D}', '\u{FF4E}', '\u{0578}'],
+        'r' | 'R' => vec!['\u{FF52}', '\u{0433}', '\u{FF32}'],
+        'q' | 'Q' => vec!['\u{FF51}', '\u{051B}', '\u{FF31}'],
+        'w' => vec!['\u{FF57}', '\u{051D}'],
+        '-' => vec!['\u{2212}', '\u{2013}', '\u{2010}'],
+        '/' => vec!['\u{FF0F}', '\u{2215}'],
+        'a'..='h' => vec![char::from_u32(0xFF41 + (c as u32 - 'a' as u32)).unwrap_or('\u{FF41}')],
+        '0'..='9' => {
+            let d = c as u32 - '0' as u32;
+            vec![char::from_u32(0xFF10 + d).unwrap(), char::from_u32(0x0660 + d).unwrap(), char::from_u32(0x06F0 + d).unwrap(), char::from_u32(0x0966 + d).unwrap()]
+        }
+        _ => vec![],
+    }
+}
+
 fn rank_sum(rank: &str) -> u32 {
     rank.chars().map(|c| c.to_digit(10).unwrap_or(1)).sum()
 }
 
-fn invalid_case(r: &gen::RawPos, class: u32, a: u32, b: u32) -> InvalidCase {
+pub fn invalid_case(r: &gen::RawPos, class: u32, a: u32, b: u32) -> InvalidCase {
     let p = gen::position(r, ClockDomain::Keep);
     let fen = p.fen();
     let f: Vec<String> = fen.split(' ').map(str::to_string).collect();
@@ -293,6 +314,25 @@ fn invalid_case(r: &gen::RawPos, class: u32, a: u32, b: u32) -> InvalidCase {
             let mut g = f.clone();
             g[4 + pick(2, b)] = bad.to_string();
             ("bad_clock", join(&g))
+        }
+        13 | 14 => {
+            // ONE character replaced by a Unicode look-alike / case-folding relative (Kelvin sign, full-width,
+            // Greek / Cyrillic homoglyphs, other digit scripts): none of them is a FEN character
+            let field = [0usize, 0, 0, 1, 2, 3, 4, 5][pick(8, a)];
+            let mut chars: Vec<char> = f[field].chars().collect();
+            let idxs: Vec<usize> = (0..chars.len()).filter(|&i| !lookalikes(chars[i]).is_empty()).collect();
+            if idxs.is_empty() {
+                let mut g = f.clone();
+                g[1] = "\u{ff57}".to_string();
+                ("unicode_lookalike", join(&g))
+            } else {
+                let i = idxs[pick(idxs.len(), b)];
+                let l = lookalikes(chars[i]);
+                chars[i] = l[pick(l.len(), b / 64)];
+                let mut g = f.clone();
+                g[field] = chars.into_iter().collect();
+                ("unicode_lookalike", join(&g))
+            }
         }
         _ => {
             // grammatical digit run that no u32 can hold: must be rejected rather than crash the decoder
